@@ -27,8 +27,11 @@ class C05(Prop):
     SOURCES = hcm.SOURCES + ["src/pylife/materiallaws/notch_approximation_law.py"]
     LEAN_MODULES = ["Proofs.C05"]
     PARALLEL = 16
-    THEOREMS = []
-    PARTIAL = {}
+    THEOREMS = [
+        "PylifeVerif.C05.hcm_model_eq_guideline",
+        "PylifeVerif.C05.hcm_batch_eq_single",
+    ]
+    PARTIAL = {"PylifeVerif.C05.hcm_batch_eq_single": "proved for all columns except the running strain extremes epsilon_min_LF / epsilon_max_LF (their update is decided on the first point's strains; checked by the oracle only, class batch-LF-first-point) and under SignPreserving (monotone law)"}
     RULE = ("case = (load sequence of the first point, positive integer load ratios of 1-4 points, exact stub notch law); every column of "
             "the recorder's collective (min/max load, stress, strain, running strain extremes, closed/half flag, zero-mean flag, pass number) and the "
             "visited strain values are compared bit-exactly with the model; the Lean guideline procedure is compared with the oracle's reference "
